@@ -204,6 +204,9 @@ func (x *Exec) load(st *State, key string, T types.Type) Value {
 	if v, ok := st.store[key]; ok {
 		return v
 	}
+	if isSpecialKey(key) {
+		return Scalar(x.ghostInt(st, key), nil)
+	}
 	if strings.HasPrefix(key, "G:") {
 		g := x.contracts().GhostIdx[key[2:]]
 		if g == nil {
